@@ -31,10 +31,10 @@ TECHNIQUE = ('Coq refinement proof (accumulator-based model = per-row reference 
              'against the real engine evaluated by vm_compute + independent Python oracle on the implementation')
 LEVEL_TEXT = ('Kernel-checked theorems, for all tables/arguments/options/conversion functions: the executable model of '
               'BulkAddOrUpdateRecord (lookup on the pre-call table, on_many, add/update flags, allow_empty_require, '
-              'accumulated BulkAddRecord + trimmed BulkUpdateRecord, returned id lists) equals a per-row reference '
+              'accumulated BulkAddRecord + BulkUpdateRecord (last occurrence of a row kept, unchanged entries trimmed), returned id lists) equals a per-row reference '
               'specification, the four argument errors reject without change, and AddOrUpdateRecord agrees with its '
-              'reference; the one situation in which the code deviates (several input rows updating one record, the last '
-              'one a no-op) is proved as a counterexample and excluded by the narrowest hypothesis. The model is compared with the running engine on every run.')
+              'reference. Two deviations found while building the check were repaired in /repo (e346da4, 060dc6b); '
+              'their witnesses stay in the corpus and as regression examples. The model is compared with the running engine on every run.')
 LEVEL_NOTE = ('Trusted: Coq kernel, the hand-written model (validated differentially each run), column.convert as an '
               'uninterpreted function. Record add/update internals (undo, formula recalculation) are outside C28.')
 
